@@ -212,10 +212,12 @@ def parse_lines(text):
     return obs, orc
 
 
-def run_both(stream, cases, scratch, xv, env=None, timeout=900, model=True, impl=True, shards=None, model_stream=None, prep=None):
+def run_both(stream, cases, scratch, xv, env=None, timeout=900, model=True, impl=True, shards=None, model_stream=None, prep=None, prep_impl=False):
     """cases: list of (id, text-after-id).  Returns (impl_obs, impl_orc, model_obs, errors).
     prep: name of a harness stream that prints `aux <id> <text>` lines (oracle tables for external codecs, or
-    bytes built by the implementation's own serializer); they are appended to the model's case lines after ` ## `."""
+    bytes built by the implementation's own serializer); they are appended to the model's case lines after ` ## `.
+    prep_impl: the prep run is the implementation run (its output carries the obs/orc lines too); used when the
+    implementation makes random choices that the model must be told about (cache eviction victims)."""
     shards = shards or NPROC
     os.makedirs(scratch, exist_ok=True)
     files = []
@@ -227,11 +229,18 @@ def run_both(stream, cases, scratch, xv, env=None, timeout=900, model=True, impl
                 f.write("%s %s\n" % (cid, text))
         files.append(p)
     mfiles = {p: p for p in files}
-    if prep and model:
+    pre_iobs, pre_iorc, pre_errors = {}, {}, []
+    if prep and (model or prep_impl):
         with concurrent.futures.ThreadPoolExecutor(max_workers=NPROC) as ex:
             futs = {p: ex.submit(_run_exec, [xv, prep, p], env, timeout) for p in files}
         for p in files:
             rc, out, err = futs[p].result()
+            if prep_impl:
+                o, c = parse_lines(out)
+                pre_iobs.update(o)
+                pre_iorc.update(c)
+                if rc != 0:
+                    pre_errors.append("impl executor failed on %s (rc=%s): %s" % (os.path.basename(p), rc, err.strip()[-400:]))
             aux = {}
             for line in out.split("\n"):
                 if line.startswith("aux "):
@@ -247,11 +256,11 @@ def run_both(stream, cases, scratch, xv, env=None, timeout=900, model=True, impl
     drv = os.path.join(ROOT, "ocaml", "driver")
     with concurrent.futures.ThreadPoolExecutor(max_workers=NPROC) as ex:
         for p in files:
-            if impl:
+            if impl and not prep_impl:
                 jobs.append(("impl", p, ex.submit(_run_exec, [xv, stream, p], env, timeout)))
             if model:
                 jobs.append(("model", p, ex.submit(_run_exec, ["bash", "-c", "ulimit -s unlimited 2>/dev/null; exec \"$0\" \"$1\" \"$2\"", drv, model_stream or stream, mfiles[p]], None, timeout)))
-        iobs, iorc, mobs, errors = {}, {}, {}, []
+        iobs, iorc, mobs, errors = pre_iobs, pre_iorc, {}, pre_errors
         for kind, p, fut in jobs:
             rc, out, err = fut.result()
             o, c = parse_lines(out)
